@@ -28,6 +28,7 @@ ASSUMPTIONS = [
     "SwitchGDD=1 (phenology averaged over the whole window by design) is outside the first clause and is not generated",
     "a pair in which one run ends in a documented rejection (thermal crop without enough degree days in the shorter tail) is counted as rejected, not compared",
     "(extend) both runs read the same weather table, generated long enough for the extended end",
+    "(rewindow) not applied to interpolated water-table series (their observations must bracket the window); known finding F14h (thermal-time crop without a harvest date: the derived date is remembered on the Crop object) is reported as KNOWN-FINDING, keyed to exactly that constellation",
 ]
 BUDGET = {"quick": 380, "thorough": 6000}
 PROFILE_CAL = gen.profile(crops=list(gen.CAL_CROPS) + ["Potato", "SugarBeet", "Tomato", "Quinoa"], seasons=(1, 3), max_days=650, p_custom_soil=0.15, p_gw=0.15, p_fm=0.3, pad=(0, 5))
@@ -175,17 +176,26 @@ def evaluate(case):
                 res.labels.add("first_window_rejected")
                 return res
             raise
+        # known finding F14h: for a thermal-time crop without a harvest date the first run derives the latest harvest
+        # date from ITS window's weather and writes it onto the user's Crop object, where the second run finds it as if
+        # the user had given it. Keyed to exactly that constellation; every other rewindow failure is a violation
+        from ..config import PRISTINE_CROP_PARAMS
+
+        thermal = int(PRISTINE_CROP_PARAMS[cfg["crop"]["name"]]["CalendarType"]) == 2 or int(cfg["crop"].get("overrides", {}).get("SwitchGDD", 0) or 0) == 1
+        sfx = "|derived_harvest_date_of_thermal_crop" if (thermal and cfg["crop"].get("harvest") is None) else ""
+        if sfx:
+            res.labels.add("rewindow_thermal_crop_without_harvest_date")
         try:
             m.sim_start_time = c2["start"]
             m.sim_end_time = c2["end"]
             m.run_model(till_termination=True)
         except Exception as e:
-            res.fail("rewindow_raises", "the model run over %s..%s and then, after moving its dates to %s..%s, run again raises %s: %s (a fresh model for that window runs)" % (
+            res.fail("rewindow_raises" + sfx, "the model run over %s..%s and then, after moving its dates to %s..%s, run again raises %s: %s (a fresh model for that window runs)" % (
                 cfg["start"], cfg["end"], c2["start"], c2["end"], type(e).__name__, str(e)[:120]))
             return res
         d = compare_outputs(outputs_of(m), fresh)
         if d:
-            res.fail("records_outside_new_window_matter", "model run over %s..%s, dates then moved to %s..%s and run again: differs from a fresh model for that window: %s" % (
+            res.fail("records_outside_new_window_matter" + sfx, "model run over %s..%s, dates then moved to %s..%s and run again: differs from a fresh model for that window: %s" % (
                 cfg["start"], cfg["end"], c2["start"], c2["end"], d))
         res.nontrivial = True
         return res
